@@ -765,7 +765,7 @@ func runC01(c *Ctx) {
 		instrsOf(f, func(in ssa.Instruction) {
 			if (isQueueCall(in, "pop") || isQueueCall(in, "peek")) && queueOf(in) == "vnet.Router.queue" {
 				o.Site(in.Pos(), "%s in %s", callName(in.(ssa.CallInstruction)), fname(f))
-				if f != pc {
+				if !isIn(f, pc) {
 					o.Fail(in.Pos(), "the router queue is consumed in %s", fname(f))
 				}
 			}
